@@ -122,12 +122,15 @@ CLAIMED = {
     },
     "C11": {
         "text": "Lean 4 theorems (Props/C11.lean): the applicability table (13 names x 4 formats, decided exhaustively) and refusal of every other name, "
-                "validate = the documented consistency rules for every setting (C11_validate_iff), defaults, Header accepted iff integer >= 0, Sheet iff >= 1, "
-                "literal character spelling. Correspondence: 14 spelling kinds x ~110 code points rendered by the Lean spec and fed to the real set_property, "
-                "all value sets over printable ASCII, applicability matrix, consistency product, encodings vs codecs.lookup.",
-        "note": "Trusted: Lean kernel; DataFormat model faithfulness (exhaustive correspondence); the codec registry is a parameter; the equivalence of the numeric/quoted/"
-                "symbolic spellings is established by exhaustive correspondence over the pool (the lexer-level Lean proof is not done yet).",
-        "technique": "Lean 4 proof (finite tables by decide, consistency by case analysis) + exhaustive differential correspondence",
+                "validate = the documented consistency rules for every setting (C11_validate_iff), defaults, Header accepted iff integer >= 0, Sheet iff >= 1; "
+                "C11_spellings proves for every code point and each of the spellings decimal, 0x/0X hexadecimal, quoted character and symbolic name that "
+                "_validated_character (strip, generated_tokens with its INDENT handling, the tokenizer fragment, int(text, 0), code_for_string_token, chr) "
+                "returns exactly that character, C11_spelling_literal the same for the literal spelling. Correspondence: 14 spelling kinds x ~110 code "
+                "points rendered by the Lean spec and fed to the real set_property, all value sets over printable ASCII, applicability matrix, consistency "
+                "product, encodings vs codecs.lookup.",
+        "note": "Trusted: Lean kernel; DataFormat model faithfulness (exhaustive correspondence); the codec registry is a parameter; the backslash-escape "
+                "spellings inside quotes ('\\x..', '\\u....') are established by exhaustive correspondence over the pool only.",
+        "technique": "Lean 4 proof (finite tables by decide, consistency by case analysis, spellings through the lexer model) + exhaustive differential correspondence",
         "design_ref": "DESIGN.md §6 C11",
     },
     "C12": {
